@@ -6,6 +6,7 @@ import TinsModel.Wire.Icmp.Theorems
 import TinsModel.Wire.Transport.Theorems
 import TinsModel.Wire.App.Theorems
 import TinsModel.Wire.Wifi.Theorems
+import TinsModel.Wire.Chain.Examples
 /-
   Property C03 — re-serializing a parsed packet preserves it.  Generic codec facts here; the per-class
   `*_reparse` theorems live in TinsModel/Wire/<Family>/Theorems.lean.
@@ -31,13 +32,56 @@ example : Cursor.beNat (OutCursor.beBytes 2 0xabcd) = 0xabcd := by decide
     packet reproduces the bytes.  Proved by induction over the stack from the per-class `*_reparse` theorems and the
     generated next-protocol tables (`Wire/L2/ThChain*.lean`).  The other families have the per-class halves
     (`ip4_reparse`, `ipv6_reparse`, `tcp_reparse`, `udp_reparse`, `icmp_reparse_*`, `icmp6_reparse_*`, `ah_reparse`,
-    `esp_reparse`, the App and Wifi `*_reparse` theorems); lifting them through the IP / IPv6 dispatch is correspondence +
-    oracle so far. -/
+    `esp_reparse`, the App and Wifi `*_reparse` theorems); `whole_packet_c03` below lifts them through the IP / IPv6
+    dispatch for the Ip, Ip6, Transport and Icmp families (App and Wifi: correspondence + oracle so far).  This theorem
+    additionally has the second-serialization clause, which the all-family theorem does not state. -/
 theorem l2_whole_packet_c03 (cls : String) (b : Bytes) (os : List Wire.AnyObj)
     (hparse : Wire.parseChain (b.length + 2) cls b = .ok os) (hall : ∀ o ∈ os, Wire.L2.L2Ser o) :
     ∃ out, Wire.serializeObjs os = .ok out ∧
       ∃ os', Wire.parseChain (out.length + 2) cls out = .ok os' ∧ Wire.L2.ViewEq (Wire.L2.padOf os) os os' ∧
         ((Wire.L2.splitRaw os).2 ≠ [] → Wire.serializeObjs os' = .ok out) :=
   Wire.L2.l2_c03 cls b os hparse hall
+
+/-- **whole_packet_c03** — C03 as stated, for whole packets of any depth that mix the link-layer family (EthernetII, 802.3,
+    LLC, SNAP, 802.1Q, MPLS, PPPoE, SLL, Loopback), IP (+options), IPSecAH, IPSecESP, IPv6 (+extension headers), UDP, TCP
+    (+options), ICMP, ICMPv6 and a final RawPDU: if libtins accepts `b` (a length a `uint32_t` can hold) as the stack `os`,
+    and `os` is none of the explicitly excluded packets (`ResidualAll`: a class outside these families or PPI / PKTAP; an
+    IP / IPv6 datagram too long for its 16-bit length field; ICMP / ICMPv6 with an RFC 4884 extension structure or a quote
+    that is not ghost-free — known findings KF-C03-Icmp-3/4; a top-level IP with source 0.0.0.0, whose serialization reads
+    the host's routing table), then serializing it succeeds, parsing the serialization succeeds and yields the same classes
+    in the same order with the same views (derived lengths / checksums / tags above a recognised payload excluded) and the
+    same payload, followed by at most `padAll os` zero bytes of minimum-frame padding.  IP fragments (payload kept as a
+    RawPDU) are covered.  Proved by induction over the stack from the per-class `*_reparse` theorems, the generated
+    next-protocol tables, and the per-class `*_parse_linkA` lemmas (`Wire/Chain/*.lean`). -/
+theorem whole_packet_c03 (cls : String) (b : Bytes) (os : List Wire.AnyObj) (hb : b.length < 4294967296)
+    (hparse : Wire.parseChain (b.length + 2) cls b = .ok os) (hres : Wire.ChainAll.ResidualAll os)
+    (henv : ∀ o t, os = .ip o :: t → Wire.Ip.envDependentTop o = false) :
+    ∃ out, Wire.serializeObjs os = .ok out ∧
+      ∃ os', Wire.parseChain (out.length + 2) cls out = .ok os' ∧ Wire.ChainAll.ViewEqAll (Wire.ChainAll.padAll os) os os' :=
+  Wire.ChainAll.c03_all cls b os hb hparse hres henv
+
+/-- **whole_packet_c03_net** — … and when the stack goes through IP or IPv6 the payload comes back byte for byte: the
+    minimum-frame padding EthernetII / Dot1Q append is cut off again by the IP total length / IPv6 payload length
+    (`padAll os = 0`; the comparison is an equality, no extra zeros). -/
+theorem whole_packet_c03_net (cls : String) (b : Bytes) (os : List Wire.AnyObj) (hb : b.length < 4294967296)
+    (hparse : Wire.parseChain (b.length + 2) cls b = .ok os) (hres : Wire.ChainAll.ResidualAll os)
+    (henv : ∀ o t, os = .ip o :: t → Wire.Ip.envDependentTop o = false)
+    (hnet : ∃ x ∈ os, Wire.ChainAll.isNet x = true) :
+    ∃ out, Wire.serializeObjs os = .ok out ∧
+      ∃ os', Wire.parseChain (out.length + 2) cls out = .ok os' ∧ Wire.ChainAll.ViewEqAll 0 os os' ∧
+        (Wire.L2.splitRaw os').2 = (Wire.L2.splitRaw os).2 :=
+  Wire.ChainAll.c03_all_net cls b os hb hparse hres henv hnet
+
+/-- **parsed_packet_representable** — the premise is not an assumption: every accepted packet outside `ResidualAll` is
+    representable (`StackableAll`): the parsing constructors establish every layer's invariant, its wire-normal options /
+    aligned extension headers / canonical TCP options, and the link of every layer to its successor. -/
+theorem parsed_packet_representable (cls : String) (b : Bytes) (os : List Wire.AnyObj) (hb : b.length < 4294967296)
+    (hparse : Wire.parseChain (b.length + 2) cls b = .ok os) (hres : Wire.ChainAll.ResidualAll os) :
+    Wire.ChainAll.StackableAll os :=
+  (Wire.ChainAll.parse_stackable_all _ cls b os hb hparse hres).1
+
+/-- the padding bound of `whole_packet_c03` never exceeds the one of the link-layer theorem -/
+theorem whole_packet_pad_le (os : List Wire.AnyObj) : Wire.ChainAll.padAll os ≤ Wire.L2.padOf os :=
+  Wire.ChainAll.padAll_le_padOf os
 
 end Tins.Props.C03
